@@ -261,6 +261,7 @@ const prelude = `(declare-sort Str 0)
 (declare-fun maplen_i (Int) Int)
 (declare-const empty_str Str)
 (assert (= (slen empty_str) 0))
+(assert (and (nlfree empty_str) (folded empty_str) (= (lower empty_str) empty_str)))
 (assert (= (rkind 0) 0))
 (assert (forall ((b Str) (l1 Int) (h1 Int) (l2 Int) (h2 Int)) (! (=> (and (<= 0 l1) (<= l1 h1) (<= 0 l2) (<= l2 h2) (<= h2 (- h1 l1))) (= (ssub (ssub b l1 h1) l2 h2) (ssub b (+ l1 l2) (+ l1 h2)))) :pattern ((ssub (ssub b l1 h1) l2 h2)))))
 (assert (forall ((b Str) (l Int) (h Int)) (! (=> (and (<= 0 l) (<= l h) (<= h (slen b))) (= (slen (ssub b l h)) (- h l))) :pattern ((ssub b l h)))))
